@@ -27,10 +27,10 @@ ASSUMPTIONS = ["recursion limit / memory are not modelled",
                "a validating record branch followed by a validating non-record branch: the statement leaves the choice open "
                "(DESIGN F13, the code takes the later non-record branch); both are accepted by the predicate, the model mirrors the code"]
 PARTIAL = ["C09_closure is proved for every well-typed wire value under the boolean side condition closb (named branches: first of their "
-           "name, tuple notation on; unnamed branches: the read-back value re-resolves to the same branch; float leaves stable under "
-           "single->double->single, decided per value -- the general fact d2s (s2d (d2s b)) = d2s b is not proved; enum index = first "
-           "occurrence; distinct map keys / field names); closb is evaluated in-model on every case and cross-checked against the model's "
-           "read-then-write (CL) and the implementation's (corr:closure)",
+           "name, tuple notation on; unnamed branches: the read-back value re-resolves to the same branch; enum index = first occurrence; "
+           "distinct map keys / field names) and floats_stable (derived for every written value: C09_closure_written has no float "
+           "hypothesis); closb is evaluated in-model on every case and cross-checked against the model's read-then-write (CL) and the "
+           "implementation's (corr:closure)",
            "the hypotheses of C01_elab_typed on the input (wf_py, pyfloats_ok, wf_schema/wf_env, dflt/env_floats_ok) are evaluated in-model "
            "on every case; floats_ok of the elaborated value is DERIVED in Rocq (proofs/ElabFloats.v) and still printed as a cross-check"]
 
@@ -54,7 +54,11 @@ def parse_model(m):
     cb = "?"
     if ";CB:" in cl:
         cl, cb = cl.rsplit(";CB:", 1)
-    out.update(A=a, W=w, flags=flags, R=r, CL=cl, CB=cb)
+    if cb.endswith("FSBAD"):             # floats_stable false on a written value: contradicts elab_floats_stable
+        out["flags"] = "FSBAD"
+        cb = cb[:-5]
+    out.update(A=a, W=w, R=r, CL=cl, CB=cb)
+    out.setdefault("flags", flags)
     return out
 
 
